@@ -17,7 +17,8 @@ RULE = ('(alphabet) every sequence up to length 3 (quick: all of length <=2 + sa
         'length <= max_frame_size built from the FF and in-sequence CFs with no new message between; one delivery per frame at most); '
         'only Flow Control frames are emitted, at most one per First Frame / completed block; (interrupts) well-formed messages abandoned at a '
         'random frame by the next First / Single Frame, blocksize 2/3/5: a Flow Control exactly after each First Frame and each completed block '
-        'of the message in progress, none elsewhere. All cases replayed on the extracted model.')
+        'of the message in progress, none elsewhere. All cases replayed on the extracted model.'
+        ' The interrupts campaign also inserts frames the reception must ignore without losing count of the block (the expected Consecutive Frame in a 12-byte CAN FD frame that cannot hold the rest, stray Flow Controls).')
 ASSUME = ['bytes are 0..255; user callbacks do not raise']
 
 ERRORS = {'FlowControlTimeoutError', 'ConsecutiveFrameTimeoutError', 'InvalidCanDataError', 'UnexpectedFlowControlError',
